@@ -85,7 +85,9 @@ def calls(rng, tg, nrandom):
     out.append(("with_fragment", (None,), {"fragment": None}))
     for s in ("https", "HTTP", "foo", "ws", "x-y"):
         out.append(("with_scheme", (s,), {"scheme": s}))
-    for h in ("other.org", "UPPER.Org", "10.0.0.1", "::1", "FE80::2%en0", "bücher.example", "a_b"):
+    for h in ("other.org", "UPPER.Org", "10.0.0.1", "::1", "FE80::2%en0", "bücher.example", "a_b",
+              # reg-names that LOOK like IP-literal candidates to the encoder's probe (final digit, '%' of a pct-escape) but are not
+              "node%2D1", "caf%C3%A9", "a%41b.example9", "srv-9", "1.2.3.4.5", "a%2db", "x9"):
         out.append(("with_host", (h,), {"host": h}))
     for p in (None, 0, 80, 443, 8080, 65535):
         out.append(("with_port", (p,), {"port": p}))
